@@ -159,6 +159,8 @@ func main() {
 				fmt.Fprintln(os.Stderr, err)
 				os.Exit(3)
 			}
+		} else if *job == "listing" {
+			ctx.RunListing(*tier)
 		} else {
 			ctx.Run(*tier)
 		}
